@@ -105,13 +105,19 @@ Qed.
    size-th non-empty piece arrives *)
 
 Section Enc.
-  Variable B : Type.
-  Variable enc : str -> list B.
-  Hypothesis enc_nil : enc [] = [].
-  Hypothesis enc_app : forall a b, enc (a ++ b) = enc a ++ enc b.
-  Lemma dump_enc_concat chunks : dump_enc B enc chunks = enc (concat chunks).
+  Variables (B St : Type).
+  Variable feed : St -> str -> St * list B.
+  Variable flush : St -> list B.
+  (* the law of an incremental encoder: feeding a ++ b equals feeding a then b; feeding the
+     empty text changes nothing *)
+  Hypothesis feed_nil : forall st, feed st [] = (st, []).
+  Hypothesis feed_app : forall st a b,
+    feed st (a ++ b) = let '(s1, x) := feed st a in let '(s2, y) := feed s1 b in (s2, x ++ y).
+  Lemma dump_feed_concat chunks : forall st, dump_feed B St feed st chunks = feed st (concat chunks).
   Proof.
-    induction chunks as [|c r IH]; cbn [dump_enc concat]; [now rewrite enc_nil|].
-    now rewrite enc_app, IH.
+    induction chunks as [|c r IH]; intros st; cbn [dump_feed concat]; [now rewrite feed_nil|].
+    rewrite feed_app. destruct (feed st c) as [s1 x]. rewrite IH. reflexivity.
   Qed.
+  Lemma dump_enc_concat st0 chunks : dump_enc B St feed flush st0 chunks = encode_all B St feed flush st0 (concat chunks).
+  Proof. unfold dump_enc, encode_all. now rewrite dump_feed_concat. Qed.
 End Enc.
